@@ -109,13 +109,55 @@ C20One(f, a, r, line) ==
   /\ (f \in StaleFns) =>
        Chk("C20", "stale_iff_not_refreshed_now", line, Def(r) /\ (r.b = BLt(a[1], a[2])), [fn |-> f, args |-> a])
 
+\* "A venue reserve or market that was not refreshed in the current slot or second is treated as stale", judged on what the
+\* program decides (not only on the staleness helpers): a bank priced through a venue whose reserve (Kamino, Solend: slot) or
+\* market (Drift: second) was last brought up to date before now has no usable price - whatever the age of the feed it is
+\* applied to.  Accepted borrowing / withdrawing: positions in such banks count for nothing; liquidation, bankruptcy and
+\* receivership assessments of an account holding such a position fail; no price of such a bank is cached.
+VenueBehind(s, bn) ==
+  LET b == s.banks[bn] setup == b.cfg.oracle_setup k == b.cfg.oracle_keys[2] IN
+  \/ (setup \in KamLike /\ Has(ReservesOf(s), k) /\ BLt(s.reserves[k].slot, s.clock.slot))
+  \/ (setup \in DriLike /\ Has(MarketsOf(s), k) /\ BLt(s.markets[k].ts, s.clock.ts))
+VenueHeld(s, a) == {i \in ActiveSlots(a) : (BGe(a.bal[i].a, FONE) \/ BGe(a.bal[i].l, FONE)) /\ VenueBehind(s, a.bal[i].bank)}
+C20Venue(pre, e0, e, post, line) ==
+  /\ (e.ev \in {"borrow", "withdraw", "kamino_withdraw", "drift_withdraw", "solend_withdraw"} /\ Ok(e) /\ Has(e.a, "acct") /\ Has(post.accts, e.a.acct)) =>
+       LET a == post.accts[e.a.acct]
+           hasDebt == \E i \in ActiveSlots(a) : BGe(a.bal[i].l, FONE)
+           h == HealthRef(post, e, a, "Init", "fav")
+       IN (VenueHeld(post, a) # {} /\ hasDebt /\ h.known /\ ~Bit(a.flags, ACC_FLASHLOAN) /\ ~Bit(a.flags, ACC_RECEIVERSHIP)) =>
+          Chk("C20", "position_in_a_venue_not_refreshed_now_counts_for_nothing", line, RGe(Health(h), RNeg(h.tol)), [acct |-> e.a.acct, ev |-> e.ev])
+  \* (e0 is the event as recorded, e its effective instruction: a transaction that first brings the venue up to date is judged
+  \*  on its last instruction for the clauses that read the post-state only)
+  /\ (e0.ev = "liquidate" /\ Ok(e) /\ Has(pre.accts, e.a.liquidatee)) =>
+       Chk("C20", "no_liquidation_assessment_on_a_venue_not_refreshed_now", line,
+           {i \in VenueHeld(pre, pre.accts[e.a.liquidatee]) : BGe(pre.accts[e.a.liquidatee].bal[i].l, FONE) \/ pre.banks[pre.accts[e.a.liquidatee].bal[i].bank].cfg.risk_tier = 0} = {},
+           [acct |-> e.a.liquidatee])
+  /\ (e0.ev = "bankruptcy" /\ Ok(e) /\ Has(pre.accts, e.a.acct)) =>
+       Chk("C20", "no_bankruptcy_assessment_on_a_venue_not_refreshed_now", line,
+           {i \in VenueHeld(pre, pre.accts[e.a.acct]) : BGe(pre.accts[e.a.acct].bal[i].l, FONE) \/ pre.banks[pre.accts[e.a.acct].bal[i].bank].cfg.risk_tier = 0} = {},
+           [acct |-> e.a.acct])
+  /\ (e.ev = "tx" /\ Ok(e) /\ (\A k \in 1..Len(e.a.ixs) : e.a.ixs[k].op \notin VenueRefreshOps)) =>
+       \A k \in 1..Len(e.a.ixs) :
+         (e.a.ixs[k].op = "start_liq" /\ Has(e.a.ixs[k], "acct") /\ Has(pre.accts, e.a.ixs[k].acct)) =>
+           Chk("C20", "no_receivership_assessment_on_a_venue_not_refreshed_now", line,
+               {i \in VenueHeld(pre, pre.accts[e.a.ixs[k].acct]) : BGe(pre.accts[e.a.ixs[k].acct].bal[i].l, FONE) \/ pre.banks[pre.accts[e.a.ixs[k].acct].bal[i].bank].cfg.risk_tier = 0} = {},
+               [acct |-> e.a.ixs[k].acct])
+  /\ (IsProgramEvent(e) /\ Ok(e)) =>
+       \A bn \in (DOMAIN post.banks) \cap (DOMAIN pre.banks) :
+         (post.banks[bn].cache.price_ts # pre.banks[bn].cache.price_ts \/ post.banks[bn].cache.price # pre.banks[bn].cache.price) =>
+           \* (the cache is written at the end of the instruction: the venue is read as the instruction left it)
+           LET s0 == IF Has(post, "reserves") /\ Has(pre, "reserves") THEN [pre EXCEPT !.reserves = post.reserves] ELSE pre
+               s1 == IF Has(post, "markets") /\ Has(pre, "markets") THEN [s0 EXCEPT !.markets = post.markets] ELSE s0 IN
+           Chk("C20", "no_price_cached_from_a_venue_not_refreshed_now", line, ~VenueBehind(s1, bn), [bank |-> bn, ev |-> e.ev])
+
 C20(pre, e, post, line) ==
-  (e.ev = "integ" /\ Ok(e)) =>
-    /\ C20One(e.a.fn, e.a.args, e.out.r, line)
-    /\ (Has(e.a, "args2") /\ Has(e.out, "r2")) =>
-         /\ C20One(e.a.fn, e.a.args2, e.out.r2, line)
-         /\ (e.a.fn \in {"ty.adj_i64", "ty.adj_u64", "ty.adj_i128", "ty.adj_sup_i64", "drift.adj_i64", "drift.adj_u64", "drift.adj_i128"}
-             /\ Def(e.out.r) /\ Def(e.out.r2)) =>
-              Chk("C20", "adjusted_price_monotone_in_price_and_rate", line, BLe(e.out.r.v, e.out.r2.v),
-                  [fn |-> e.a.fn, args |-> e.a.args, args2 |-> e.a.args2, v1 |-> e.out.r.v, v2 |-> e.out.r2.v])
+  /\ (e.ev # "integ") => C20Venue(pre, e, Eff(e), post, line)
+  /\ (e.ev = "integ" /\ Ok(e)) =>
+       /\ C20One(e.a.fn, e.a.args, e.out.r, line)
+       /\ (Has(e.a, "args2") /\ Has(e.out, "r2")) =>
+            /\ C20One(e.a.fn, e.a.args2, e.out.r2, line)
+            /\ (e.a.fn \in {"ty.adj_i64", "ty.adj_u64", "ty.adj_i128", "ty.adj_sup_i64", "drift.adj_i64", "drift.adj_u64", "drift.adj_i128"}
+                /\ Def(e.out.r) /\ Def(e.out.r2)) =>
+                 Chk("C20", "adjusted_price_monotone_in_price_and_rate", line, BLe(e.out.r.v, e.out.r2.v),
+                     [fn |-> e.a.fn, args |-> e.a.args, args2 |-> e.a.args2, v1 |-> e.out.r.v, v2 |-> e.out.r2.v])
 =============================================================================
